@@ -272,6 +272,48 @@ def agent_fn(ctx, item):
 # FileCollector
 # ---------------------------------------------------------------------------------------------------------
 
+def crowd_case(case):
+    """An agent collector over more than a thousand agents, some of which answer None, with agents leaving and joining
+    between timesteps: every record holds exactly the answers of that timestep's residents."""
+    reset_library()
+    n = case['n']
+    m = new_model(seed=1)
+    agents = []
+    for i in range(n):
+        a = Core.Agent(f'c{i}', m)
+        a.add_component(V(a, m, None if i % 13 == 5 else i * 3))
+        agents.append(a)
+        m.environment.add_agent(a)
+    col = AgentCollector(m, lambda a: a[V].value, lambda ags: {'count': len(ags)}, True)
+    m.systems.add_system(col)
+    res = list(range(n))
+    exp = []
+    for t in range(4):
+        if t == 1:
+            for i in range(0, n, 9):
+                m.environment.remove_agent(f'c{i}')
+                res.remove(i)
+        if t == 2:
+            for i in range(0, n, 27):
+                m.environment.add_agent(agents[i])
+                res.append(i)
+        rec = {'timestep': t}
+        rec.update({f'c{i}': i * 3 for i in res if i % 13 != 5})
+        rec['count'] = len(res)
+        exp.append(rec)
+        m.execute()
+    got = col.records
+    if got != exp:
+        t = next((k for k, (g, e) in enumerate(zip(got, exp)) if g != e), min(len(got), len(exp)))
+        g, e = (got[t] if t < len(got) else {}), (exp[t] if t < len(exp) else {})
+        bad = sorted(k for k in set(g) | set(e) if g.get(k, '<absent>') != e.get(k, '<absent>'))[:5]
+        raise Violation(f'{n} agents: record of timestep {t} differs from the residents\' answers (keys {bad})',
+                        expected={k: e.get(k, '<absent>') for k in bad}, observed={k: g.get(k, '<absent>') for k in bad})
+    if any(list(g) != list(e) for g, e in zip(got, exp)):
+        raise Violation(f'{n} agents: keys of a record are not in joining order')
+    return 4 * n
+
+
 def file_case(case):
     reset_library()
     counts, wc, win = case['counts'], case['write_count'], WINDOWS[case['win']]
@@ -352,6 +394,15 @@ AMBIENT_LEGS = True
 
 def run(ctx):
     quick = ctx.tier == 'quick'
+    case = {'leg': 'crowd', 'n': 120 if ctx.small else 1200}
+    ctx.traces += 1
+    try:
+        ctx.transitions += hbfs._guard(crowd_case, case)
+        ctx.outcome(('crowd', case['n']))
+    except Violation as v:
+        ctx.report(case, v)
+        return
+    ctx.leg('crowd', note='agent collector over 1200 agents, 4 timesteps, agents leaving and joining in between')
     T, wcs = (5, range(4)) if quick else (7, range(6))
     cases = [{'leg': 'file', 'counts': list(c), 'write_count': wc, 'win': wi}
              for c in itertools.product((0, 1, 2), repeat=T) for wc in wcs for wi in range(len(WINDOWS))]
@@ -388,6 +439,9 @@ def run(ctx):
 
 
 def replay(case):
+    if case['leg'] == 'crowd':
+        hbfs._guard(crowd_case, case)
+        return
     if case['leg'] == 'file':
         hbfs._guard(file_case, case)
     else:
